@@ -1,7 +1,209 @@
 import Q1t.Proofs.PauliPhase
-namespace Q1t.Props.C03
-open Q1t Q1t.Tableau Q1t.Spec.Pauli Q1t.Proofs.Tableau
+import Q1t.Proofs.PauliAct
+import Q1t.Proofs.TableauRow
+import Q1t.Proofs.TableauStab
+import Q1t.Proofs.TableauTables
+import Q1t.Proofs.TableauFinite
+import Q1t.Proofs.TableauWitness
+/-!
+# C03 — stabilizer tableau semantics equal state-vector semantics
 
-theorem phase_table_correct : PhaseTableCorrect Q1t.Gen.phaseTable := phaseTable_correct
+Property theorems only; proofs are in `Q1t/Proofs/{PauliPhase,PauliAct,TableauRow,TableauStab,TableauTables,
+TableauFiniteK,TableauFinite,TableauWitness}.lean`.
+
+All statements are about the executable model `Q1t.Tableau` of `src/stabilizer/tableau.rs` (tied to the
+code by the correspondence run of `tools/check.py C03`), with the phase table and the conjugation tables
+*regenerated from /repo's source* (`Q1t.Gen.phaseTable`, `Q1t.Gen.conjTable`).  The reference semantics is
+`Q1t.Spec.Pauli` / `Q1t.Spec.Stab`: Pauli matrices and state vectors over the exact ring ℤ[ζ₈].
+
+Two kinds of statements, kept apart:
+
+* **general** (all `n`, all tableaux, all vectors): phase table, `multiply_row`, the group action law,
+  preservation of the stabilized vectors by the row operations, absence of the assertion failure;
+* **FINITE** (suffix `_n2`): kernel-checked for *all stabilizer states of 1 and 2 qubits* (6 and 60 states,
+  the closure of `|0…0⟩` under H, S, CX).  They are not claims about `n ≥ 3`; there the same checks are run
+  by compiled code on the real implementation for all 1080 (quick) / 36720 (thorough) states.
+
+Not proved for general `n` (see the final section): uniqueness of the canonical form, the classification
+"non-deterministic ⇒ 50/50", `apply_gate` on arbitrary placements.
+-/
+namespace Q1t.Props.C03
+open Q1t Q1t.Tableau Q1t.Spec.Pauli Q1t.Spec.Stab Q1t.Spec.StabEnum Q1t.Proofs.Tableau
+
+/-! ## generated tables -/
+
+/-- **The phase table of `multiply_row` is right**: for all 16 pairs of Pauli operators,
+`σ_a σ_b = i^{PHASE_FACTORS[4a+b]} σ_{a xor b}` as 2×2 matrices over ℤ[ζ₈], and every entry is `< 4`.
+(The 16 cases are the whole quantifier; re-proved whenever the table in /repo changes.  This failed on the
+pinned tree — defect D1, fixed in 28c7317.) -/
+theorem phase_table_correct :
+    ∀ a b : P, sigma a * sigma b = (sigma (P.xor a b)).smulIPow (Tab.phaseAt Q1t.Gen.phaseTable a b) ∧
+      Tab.phaseAt Q1t.Gen.phaseTable a b < 4 :=
+  phaseTable_correct
+
+/-- The `conjugate` rules of the 13 library stabilizer gates, as extracted from /repo, are the expected
+ones (`entryK`, a literal copy used by the kernel evaluations below): the model's look-up by name in the
+generated table yields exactly them. -/
+theorem conj_tables_as_expected (g : SGate) : conjFor g.name = conjK g ∧ params = paramsK :=
+  ⟨conjFor_eq g, params_eq⟩
+
+/-! ## general theorems (all `n`) -/
+
+/-- **Group action law** for the reference semantics, all `n`: the product of two phased Pauli strings acts
+on every vector of `2^n` entries as the composition of the two actions. -/
+theorem pauli_mul_act (p q : PStr) (v : Vec) (h : p.ops.length = q.ops.length) (hv : v.length = 2 ^ p.ops.length) :
+    (p.mul q).act v = p.act (q.act v) :=
+  pstr_mul_act p q v h hv
+
+/-- Two rows either commute or anticommute, and which one is decided by the parity of the accumulated
+phase exponent. -/
+theorem commute_dichotomy (r0 r1 : List P) :
+    (Commutes r0 r1 ∨ Anticommutes r0 r1) ∧ (Commutes r0 r1 ↔ phaseSum r0 r1 % 2 = 0) ∧
+    (Anticommutes r0 r1 ↔ phaseSum r0 r1 % 2 = 1) :=
+  ⟨commutes_or_anticommutes r0 r1, commutes_iff r0 r1, anticommutes_iff r0 r1⟩
+
+/-- **`multiply_row` computes the signed Pauli-group product, all `n`.**  For any tableau, any two rows
+`i0`, `i1` that exist (signs `s0`, `s1`, operators `r0`, `r1` of any length):
+if the rows commute, `multiply_row(i0, i1)` returns, row `i0` (sign included) denotes exactly
+`(±r0)·(±r1)` in the Pauli group of the reference semantics, and nothing else changes; the assertion
+`i_pow == 0 || i_pow == 2` is never tripped. -/
+theorem multiply_row_spec (t : Tab) (i0 i1 : Nat) (r0 r1 : List P) (s0 s1 : Bool)
+    (hr0 : t.rows[i0]? = some r0) (hr1 : t.rows[i1]? = some r1)
+    (hs0 : t.signs[i0]? = some s0) (hs1 : t.signs[i1]? = some s1) (hc : Commutes r0 r1) :
+    let g := (rowStr s0 r0).mul (rowStr s1 r1)
+    t.multiplyRow Q1t.Gen.phaseTable i0 i1 =
+      .ok { t with rows := t.rows.set i0 g.ops, signs := t.signs.set i0 (g.phase == 2) } ∧
+    rowStr (g.phase == 2) g.ops = g :=
+  (multiplyRow_spec phaseTable_correct t i0 i1 r0 r1 s0 s1 hr0 hr1 hs0 hs1).1 hc
+
+/-- ... and it trips the assertion exactly when the two rows anticommute. -/
+theorem multiply_row_panics_iff_anticommute (t : Tab) (i0 i1 : Nat) (r0 r1 : List P) (s0 s1 : Bool)
+    (hr0 : t.rows[i0]? = some r0) (hr1 : t.rows[i1]? = some r1)
+    (hs0 : t.signs[i0]? = some s0) (hs1 : t.signs[i1]? = some s1) :
+    t.multiplyRow Q1t.Gen.phaseTable i0 i1 = .panic .assertIPow ↔ Anticommutes r0 r1 := by
+  have sp := multiplyRow_spec phaseTable_correct t i0 i1 r0 r1 s0 s1 hr0 hr1 hs0 hs1
+  refine ⟨fun h => ?_, sp.2⟩
+  rcases commutes_or_anticommutes r0 r1 with hc | ha
+  · rw [(sp.1 hc).1] at h; cases h
+  · exact ha
+
+/-- **No assertion failure on a stabilizer tableau, all `n`**: if the tableau stabilizes some non-zero
+vector, `multiply_row` returns for every pair of rows in range (in particular inside `normalize`,
+`collapse`). -/
+theorem multiply_row_no_assert_of_stabilizes (t : Tab) (ψ : Vec) (hst : Stabilizes t ψ)
+    (hnz : Vec.isZero ψ = false) (i0 i1 : Nat) (hi0 : i0 < t.n) (hi1 : i1 < t.n) :
+    ∃ t', t.multiplyRow Q1t.Gen.phaseTable i0 i1 = .ok t' :=
+  multiplyRow_no_assert phaseTable_correct t ψ hst hnz i0 i1 hi0 hi1
+
+/-- **Row operations preserve the stabilizer group, all `n`**: a returning `swap_rows(a, b)` and a
+returning `multiply_row(i0, i1)` with `i0 ≠ i1` on a well-shaped tableau leave the set of stabilized
+vectors (hence the generated group) unchanged. -/
+theorem row_ops_preserve_group (t t' : Tab) :
+    (∀ a b, t.swapRows a b = .ok t' → ∀ ψ, Stabilizes t' ψ ↔ Stabilizes t ψ) ∧
+    (∀ i0 i1, t.WF → i0 ≠ i1 → t.multiplyRow Q1t.Gen.phaseTable i0 i1 = .ok t' →
+      ∀ ψ, Stabilizes t' ψ ↔ Stabilizes t ψ) :=
+  ⟨fun a b h => (swapRows_sameGroup t t' a b h).1,
+   fun i0 i1 hwf hne h => (multiplyRow_sameGroup phaseTable_correct t t' i0 i1 hwf hne h).1⟩
+
+/-! ## FINITE: all stabilizer states of `n ≤ 2` qubits, kernel-checked -/
+
+/-- number of enumerated states: 6 for one qubit, 60 for two -/
+theorem enum_card : (statesOf 1).length = 6 ∧ (statesOf 2).length = 60 := card
+
+/-- the lists are the closure of `(Tab.new n, |0…0⟩)` under H, S, CX on all placements, tableau side by the
+model, vector side by the state-vector semantics -/
+theorem enum_is_closure (n : Nat) (hn : n = 1 ∨ n = 2) : closure params n 50 = some (statesOf n) :=
+  closure_eq n hn
+
+/-- FINITE (n ≤ 2).  **Every library stabilizer gate on every ordered tuple of distinct qubits, on every
+state**: the model returns, and its tableau is the tableau of exactly the state the state-vector semantics
+produces (the pair (model tableau, canonical exact result vector) is again in the enumeration). -/
+theorem exhaustive_gates_n2 (n : Nat) (tv : Pair) (h : tv ∈ statesOf n) :
+    ∀ gb ∈ gateOps n, ∃ t', stepT params tv.1 gb.1 gb.2 = .ok t' ∧ (t', stepV n tv.2 gb.1 gb.2) ∈ statesOf n :=
+  gates_exhaustive n tv h
+
+/-- FINITE (n ≤ 2).  **Measurement query and collapse, every state, every qubit**: either the model
+reports `Deterministic(b)` and the state vector has all its weight on outcome `b`; or the model reports
+`Random(i)`, both blocks of the vector have equal non-zero norm, and `collapse(i, q, b)` for both `b`
+returns the tableau of exactly the projected vector `P_b ψ`.  Nothing else occurs. -/
+theorem exhaustive_measure_n2 (n : Nat) (tv : Pair) (h : tv ∈ statesOf n) (q : Nat) (hq : q < n) :
+    (∃ b, tv.1.measure q = .ok (.deterministic b) ∧ measKind n q tv.2 = .certain b) ∨
+    (∃ i, tv.1.measure q = .ok (.random i) ∧ measKind n q tv.2 = .fair ∧
+      ∀ b : Bool, ∃ t', tv.1.collapse params.ph i q b = .ok t' ∧
+        (t', Z8.canonRay (proj n q b tv.2)) ∈ statesOf n) :=
+  measure_exhaustive n tv h q hq
+
+/-- FINITE (n ≤ 2).  **Reset, partial** — the full statement would be: the model's tableau after
+`reset(q)` describes the state after a correct reset.  That is false when the qubit is random *and*
+entangled (D4: the correct result is a mixture, the code keeps one tableau; see
+`neg_reset_entangled_forced_zero`).  Proved: the model always returns; whenever the correct result is a
+pure state `w` (`resetPure`: certain qubit, or random but in a product with the rest) the tableau is the
+tableau of `w`; in the excluded class the model returns the tableau of the outcome-0 branch `P₀ψ`. -/
+theorem exhaustive_reset_partial_n2 (n : Nat) (tv : Pair) (h : tv ∈ statesOf n) (q : Nat) (hq : q < n) :
+    ∃ t', tv.1.reset params.ph q = .ok t' ∧
+      (∀ w, resetPure n q tv.2 = some w → (t', w) ∈ statesOf n) ∧
+      (resetPure n q tv.2 = none → (t', Z8.canonRay (proj n q false tv.2)) ∈ statesOf n) :=
+  reset_exhaustive n tv h q hq
+
+/-- FINITE (n ≤ 2).  Every enumerated tableau stabilizes its vector, is a fixed point of `normalize`, and
+is in reduced echelon form. -/
+theorem exhaustive_canonical_n2 (n : Nat) (tv : Pair) (h : tv ∈ statesOf n) :
+    Stabilizes tv.1 tv.2 ∧ tv.1.normalize params.ph = .ok tv.1 ∧ Canonical tv.1 ∧ Z8.canonRay tv.2 = tv.2 :=
+  pair_exhaustive n tv h
+
+/-- FINITE (n ≤ 2).  **Equal states have the identical tableau** (and conversely): the enumeration is a
+bijection between rays and tableaux. -/
+theorem equal_states_identical_tableau_n2 (n : Nat) :
+    ∀ a ∈ statesOf n, ∀ b ∈ statesOf n, (a.2 = b.2 → a.1 = b.1) ∧ (a.1 = b.1 → a.2 = b.2) :=
+  fun a ha b hb => ⟨fun h => congrArg Prod.fst ((states_inj n a ha b hb).1 h),
+                    fun h => congrArg Prod.snd ((states_inj n a ha b hb).2 h)⟩
+
+/-- FINITE (n ≤ 2).  **The tableau depends on the state only, not on the history**: two histories of
+gates (any of the 13 on any placement), collapses of random qubits to either outcome and pure resets,
+starting from `|0…0⟩`, that lead to the same ray lead to the identical tableau — so the automatic choice
+of representation cannot change per-shot states. -/
+theorem history_independent_n2 (n : Nat) (hn : n = 1 ∨ n = 2) (t1 t2 : Tab) (ψ : Vec)
+    (h1 : Reach n (t1, ψ)) (h2 : Reach n (t2, ψ)) : t1 = t2 :=
+  history_independent n hn t1 t2 ψ h1 h2
+
+/-! ## non-vacuity -/
+
+example : Reach 2 (bellT, bellV) := by
+  have h1 : Reach 2 _ := Reach.gate _ (.H, [0]) _ Reach.start (by decide) (by rw [params_eq]; decide +kernel : stepT params (start 2).1 .H [0] = .ok ⟨2, [[.X, .I], [.I, .Z]], [false, false]⟩)
+  have h2 : Reach 2 _ := Reach.gate _ (.CX, [0, 1]) _ h1 (by decide) (by rw [params_eq]; decide +kernel : stepT params _ .CX [0, 1] = .ok bellT)
+  have e : stepV 2 (stepV 2 (start 2).2 .H [0]) .CX [0, 1] = bellV := by decide +kernel
+  rw [← e]; exact h2
+
+example : Stabilizes bellT bellV ∧ Vec.isZero bellV = false := by decide +kernel
+
+example : Commutes [.X, .X] [.Z, .Z] ∧ Anticommutes [.X, .I] [.Z, .Z] := by
+  rw [commutes_iff, anticommutes_iff]; decide +kernel
+
+/-! ## negative witnesses (known findings; kernel-checked on the model) -/
+
+/-- **D4** — stabilizer `reset` of one half of a Bell pair.  The qubit is random (`fair`); the correct
+result is the mixture of `P₀ψ ∝ |00⟩` and `X·P₁ψ ∝ |01⟩`, two different rays (`resetPure = none`); the
+model (as the code) returns the single tableau `Tab.new 2` of `|00⟩`, which does not stabilize `|01⟩`. -/
+theorem neg_reset_entangled_forced_zero :
+    (bellT, bellV) ∈ statesOf 2 ∧
+    measKind 2 0 bellV = .fair ∧
+    Z8.canonRay (proj 2 0 false bellV) = Vec.basis 2 0 ∧
+    Z8.canonRay (apply1 xMat 2 0 (proj 2 0 true bellV)) = Vec.basis 2 1 ∧
+    resetPure 2 0 bellV = none ∧
+    bellT.reset params.ph 0 = .ok (Tab.new 2) ∧
+    Stabilizes (Tab.new 2) (Vec.basis 2 0) ∧ ¬ Stabilizes (Tab.new 2) (Vec.basis 2 1) := by
+  obtain ⟨a, b, c, d, e, f, g⟩ := d4_facts
+  rw [params_eq]
+  exact ⟨bell_is_model_state.2.2, a, b, c, d, e, f, by unfold Stabilizes; rw [g]; decide⟩
+
+/-- **D5** — stabilizer `peek_all` on a Bell pair.  Both qubits are reported `Random` on the uncollapsed
+tableau and are drawn independently; with draws in the support (qubit 0 ↦ 0, qubit 1 ↦ 1) the range-level
+model `StabState.peekAllInto` stores the word `0b10`, i.e. the basis state `|01⟩`, which has amplitude 0
+in the Bell state — after seeing qubit 0 = 0, qubit 1 is certainly 0. -/
+theorem neg_peek_all_independent :
+    (∃ i, bellT.measure 0 = .ok (.random i)) ∧ (∃ i, bellT.measure 1 = .ok (.random i)) ∧
+    bellPeekAllRegister [.bin 1, .bin 0] = some [2] ∧
+    vget bellV 1 = 0 ∧ measKind 2 1 (proj 2 0 false bellV) = .certain false :=
+  d5_facts
 
 end Q1t.Props.C03
